@@ -338,7 +338,7 @@ def run_C06(ctx):
     stateful(ctx, res, "transfer-split", progs, ["split"])
     # the same worklist object with `max_volume` / `auto_split` reassigned between transfers (volumes are re-used
     # after the change): the split must follow the configuration in effect at the time of the call
-    prof2 = dict(prof, kinds=["transfer", "transfer", "reconfigure"], nops=(3, 6), p_fail=0.0)
+    prof2 = dict(prof, kinds=["transfer", "transfer", "reconfigure"], nops=(3, 6), p_fail=0.0, p_reuse_after_reconfigure=0.7, p_near_equal=0.0)
     progs = [G.gen_worklist_program(rng, prof2) for _ in range(ctx.n(60))]
     stateful(ctx, res, "transfer-reconfigured", progs, ["split"])
     return res
@@ -378,6 +378,8 @@ def run_C16(ctx):
     # inside one labware: the places where a device-specific transfer implementation can differ from its twin
     prof2 = {"p_fail": 0.85, "nops": (1, 3), "kinds": ["transfer"], "fail_kinds": ["transfer"], "p_trough": 0.4}
     base += [G.gen_worklist_program(rng, prof2) for _ in range(ctx.n(45))]
+    # two labware objects of one name (and, mostly, different geometry) in one worklist
+    base += [G.gen_worklist_program(rng, dict(prof, p_same_name=1.0, p_fail=0.05, nlabs=[2, 3], p_trough=0.6)) for _ in range(ctx.n(25))]
     progs = []
     for p in base:
         for dev in ("evo", "fluent", "base"):
@@ -395,6 +397,24 @@ def run_C16(ctx):
         msg = base_refuses(pb, rb)
         if msg:
             res.viol.append(Finding("devices", dict(case, prog=pb), msg, "C16:base-guesses"))
+    # twin-only: one worklist per device meets a sequence of PLATES that all carry the same name but differ in
+    # geometry; every record must be the same on both devices (plates are numbered alike)
+    for _ in range(ctx.n(6)):
+        we, wf = impl.make_wl({"dev": "evo", "max_volume": F(950)}), impl.make_wl({"dev": "fluent", "max_volume": F(950)})
+        for _g in range(rng.randint(3, 8)):
+            R, C = rng.randint(1, 16), rng.randint(1, 24)
+            Le = impl.Labware("L", R, C, min_volume=0, max_volume=1000, initial_volumes=500)
+            Lf = impl.Labware("L", R, C, min_volume=0, max_volume=1000, initial_volumes=500)
+            for w in {G.wid(R - 1, C - 1), G.wid(rng.randrange(R), rng.randrange(C)), G.wid(rng.randrange(R), C - 1)}:
+                n0 = len(we)
+                we.aspirate(Le, w, 10.0); wf.aspirate(Lf, w, 10.0)
+                res.evaluations += 2
+                a, b = [str(r) for r in we[n0:]], [str(r) for r in wf[len(wf) - (len(we) - n0):]]
+                if a != b:
+                    case = {"kind": "fn", "fn": "same-name plates on both devices", "geometry": [R, C], "well": w}
+                    res.viol.append(Finding("devices-same-name-geometries", case,
+                                            f"plate 'L' {R}x{C}, aspirate {w}: EVO {a} vs Fluent {b}", "C16:evo-fluent-differ"))
+        res.dist["twin-only: same-name plates of several geometries"] += 1
     # twin-only stream (no model): a max_volume that is not a short binary fraction (950.3, 99.9 ...) with volumes at
     # its single-/half-precision neighbours, handed over in narrow numpy types — whatever the arithmetic noise of the
     # split steps, the two devices must agree with each other
